@@ -853,6 +853,11 @@ class GCodeBuilder(GCodeCore):
         point, params, comment = self._process_move_params(point, **kwargs)
         move, target_axes = self._transform_move(point)
 
+        # The probe may travel up to the target, validate it before
+        # the axes involved are marked as unknown
+
+        self.state._user_bounds.validate("axes", target_axes)
+
         # Prepare the G-code statement parameters
 
         args = { **params, "X": move.x, "Y": move.y, "Z": move.z }
